@@ -6,7 +6,7 @@ pub fn meta() -> PropertyMeta {
     PropertyMeta {
         id: "C13",
         level: "exploration",
-        rule: "histories of 1..25 messages (1..4 units each) on a device wired as examples/minimal_scpi.rs, with an unbounded and with a 3-entry fixed queue: valid commands and queries, every invalid kind (garbage byte, unterminated string, undefined header, missing / surplus parameter, wrong element type, out-of-range value), a test leaf whose handler returns a chosen standard or custom error of every class (with and without extended text), SYST:ERR[:NEXT]? / :COUNt? / :ALL?, *ESR?, *CLS, *OPC in any position, also in the same message as the failing unit. A status model is stepped unit by unit; after every message the response bytes, the device's queue (code, message, extended text) and ESR are compared. The ESR bit comes from the C14 class table. Plus histories that queue 250..520 items without reading them, with SYST:ERR:COUN? after each item around the 256 and 512 marks. Added: queues of 65540 .. 131080 unread items with COUN? at the 2^16 / 2^17 marks and a partial drain. Non-trivial: a history with at least 2 failures of different classes and at least one queue read.",
+        rule: "histories of 1..25 messages (1..4 units each) on a device wired as examples/minimal_scpi.rs, with an unbounded and with a 3-entry fixed queue: valid commands and queries, every invalid kind (garbage byte, unterminated string, undefined header, missing / surplus parameter, wrong element type, out-of-range value), a test leaf whose handler returns a chosen standard or custom error of every class (with and without extended text), SYST:ERR[:NEXT]? / :COUNt? / :ALL?, *ESR?, *CLS, *OPC in any position, also in the same message as the failing unit. A status model is stepped unit by unit; after every message the response bytes, the device's queue (code, message, extended text) and ESR are compared. The ESR bit comes from the C14 class table. Plus histories that queue 250..520 items without reading them, with SYST:ERR:COUN? after each item around the 256 and 512 marks. Added: queues of 65540 .. 131080 unread items with COUN? at the 2^16 / 2^17 marks and a partial drain. One step in six also carries a stored message (1..3 units, any kind that fits in a string) executed from inside a handler through Node::run with the device and context the handler was given (TEST:MACRo succeeds regardless, TEST:SMACro fails with -272): the stored message's failure is queued and flagged on its own, then the outer message goes on or fails with its own error. Non-trivial: a history with at least 2 failures of different classes and at least one queue read.",
         assumptions: &["'its error' is the error Node::run returned; its class is checked against the injected fault kind (syntax/header/type -> -1xx, range -> -222, handler error -> exactly the injected error)"],
         run,
     }
